@@ -131,6 +131,10 @@ func (m *MutVal) CopyFrom(v interface{}) bool {
 
 // mkValue builds a cache value carrying payload v and returns it with its canonical rendering.
 func mkValue(kind string, v string, n int) (statecache.Value, string) {
+	if kind == "string" {
+		// the package's own immutable value type: equal by value, so two writes of the same text are ==
+		return statecache.String(v), "string:" + v
+	}
 	if kind != "nodes" {
 		return &MutVal{B: []byte(v)}, "bytes:" + v
 	}
@@ -158,6 +162,8 @@ func render(v statecache.Value) string {
 	switch x := v.(type) {
 	case *MutVal:
 		return "bytes:" + string(x.B)
+	case statecache.String:
+		return "string:" + string(x)
 	case util.Node:
 		return "node:" + string(x.Encode())
 	case nil:
